@@ -25,7 +25,7 @@ RULE = ("(a) exhaustive: every rule-tree shape with <= N branches (N=4 quick, 5 
         "refinement / alternative, alternatives under refinements) x every assignment of branch conditions from "
         "{a>2, b>2, c>2, always-true} on the 8-object cube {1,3}^3, where every branch both fires and does not fire, chains of >= 2 alternatives "
         "in both declaration styles (nested `with` blocks / sibling `with` blocks); "
-        "(b) random thresholds and 3-7 random objects. Non-trivial: at least two different conclusions are produced "
+        "(b) random thresholds and 3-7 random objects; (c) random trees in which one branch joins a second variable (l.src == x, 0-2 links per item) so that there is one row and one conclusion per link, with branches below it testing the link; every tree is evaluated twice. Non-trivial: at least two different conclusions are produced "
         "and at least one object gets none or an overridden one; distinct by (tree, data).")
 LEVEL_TEXT = ("Reference-model monitoring: the real rule tree (Add conclusions, refinement(), alternative() under "
               "rule_mode(query)) is evaluated and the inferred instances are compared, as a multiset of (conclusion tag, "
@@ -53,6 +53,15 @@ class N:
 class Out:
     tag: Any = ""
     src: Any = None
+    link: Any = None
+
+
+@symbol
+@dataclass(eq=False)
+class L:
+    """a link to an item: refinements may join it (l.src == x), then there is one row - one conclusion - per link"""
+    src: Any = None
+    w: Any = 0
 
 
 CUBE = [[a, b, c] for a in (1, 3) for b in (1, 3) for c in (1, 3)]
@@ -125,6 +134,7 @@ def plan(tier, seed):
     specs = [{"kind": "exh", "size": SIZES[tier], "stride": nsh, "offset": i} for i in range(nsh)]
     n = 60 if tier == "quick" else 800
     specs += [{"kind": "rand", "n": n, "sub": i} for i in range(nsh)]
+    specs += [{"kind": "join", "n": n, "sub": i} for i in range(nsh)]
     return specs
 
 
@@ -132,7 +142,7 @@ def floors(tier):
     return {"distinct_nontrivial": 300, "re:ExceptIf(@.*)?\\.enter": 500, "re:Alternative(@.*)?\\.enter": 500,
             "cls:shape:ref_in_ref": 20, "cls:shape:ref_in_alt": 20, "cls:shape:alt_in_ref": 20, "cls:shape:alt_chain": 20,
             "cls:overridden": 200, "cls:alt_fired": 200, "cls:caching_off": 50,
-            "cls:style:sibling_alternatives": 200, "cls:alternative_declared_before_refinement": 200, "re:cls:longest_alternative_chain=[3-9]": 50}
+            "cls:style:sibling_alternatives": 200, "cls:join_in_tree": 300, "cls:join_item_with_two_links": 200, "cls:alternative_declared_before_refinement": 200, "re:cls:longest_alternative_chain=[3-9]": 50}
 
 
 def gen_case(rng):
@@ -144,7 +154,54 @@ def gen_case(rng):
             "alt_first": rng.random() < 0.4}
 
 
+def gen_join_case(rng):
+    """a tree in which one non-root branch joins a second variable (l.src == x [and l.w > t]); branches refining it may
+    test the link (l.w > t); its conclusion and those below it carry the link"""
+    for _ in range(50):
+        n = rng.randint(2, 4)
+        sh = rng.choice(shapes(n))
+        tree = label(sh, [[rng.choice("abc"), rng.randint(0, 3)] for _ in range(n)])
+        nodes = []
+
+        def walk(node, bound, is_root):
+            if node is None:
+                return
+            nodes.append((node, bound, is_root))
+            walk(node[2], bound, False)       # provisional, fixed below once the join node is chosen
+            walk(node[3], bound, False)
+        walk(tree, False, True)
+        # the joining branch has no alternative of its own: "the branches before it did not fire" is only unambiguous for a
+        # branch whose rows are the rows of its context (an alternative of a join would be asked once per candidate link)
+        cands = [nd for nd, _, root in nodes if not root and nd[3] is None]
+        if not cands:
+            continue
+        jn = rng.choice(cands)
+        jn[0] = ["join", rng.randint(0, 2)]
+
+        def mark(node):     # branches that refine the join branch see the link bound
+            if node is None:
+                return
+            if rng.random() < 0.5:
+                node[0] = ["lw", rng.randint(0, 2)]
+            mark(node[2])
+            mark(node[3])
+        mark(jn[2])
+        break
+    items = [[rng.randint(1, 4) for _ in range(3)] for _ in range(rng.randint(3, 6))]
+    links = []
+    for i in range(len(items)):
+        for _ in range(rng.choice([0, 0, 1, 2, 2])):
+            links.append([i, rng.randint(0, 3)])
+    rng.shuffle(links)
+    return {"tree": tree, "data": items, "links": links, "caching": rng.random() < 0.7, "sibling": rng.random() < 0.5,
+            "alt_first": rng.random() < 0.3, "join": True}
+
+
 def cases(spec, ctx):
+    if spec["kind"] == "join":
+        for i in range(spec["n"]):
+            yield gen_join_case(ctx.rng("j", spec["sub"], i))
+        return
     if spec["kind"] == "exh":
         for i, tree in enumerate(all_trees(spec["size"])):
             if i % spec["stride"] == spec["offset"]:
@@ -176,11 +233,82 @@ def fire(node, o):
     return None
 
 
-def expected(case, objs):
+def expected(case, objs, links=None):
+    if case.get("join"):
+        out = []
+        for i, o in enumerate(objs):
+            for tag, l in jfire(case["tree"], o, None, links):
+                out.append((tag, i, links.index(l) if l is not None else None))
+        return out
     return [(fire(case["tree"], o), i) for i, o in enumerate(objs) if fire(case["tree"], o) is not None]
 
 
+def _rows(cond, x, l, links):
+    """the link bindings (None = no link bound) for which the branch condition holds"""
+    if cond[0] == "join":
+        cands = [l] if l is not None else [k for k in links if k.src is x]
+        return [k for k in cands if k.src is x and k.w > cond[1]]
+    if cond[0] == "lw":
+        return [l] if (l is not None and l.w > cond[1]) else []
+    return [l] if getattr(x, cond[0]) > cond[1] else []
+
+
+def jfire(node, x, l, links):
+    """ripple-down with a joined variable: one row per link, every row keeps its own most specific conclusion"""
+    if node is None:
+        return []
+    rows = _rows(node[0], x, l, links)
+    if rows:
+        out = []
+        for l2 in rows:
+            sub = jfire(node[2], x, l2, links)
+            out.extend(sub if sub else [(node[1], l2)])
+        return out
+    return jfire(node[3], x, l, links)
+
+
 # ------------------------------------------------------------------------------------------------ real code
+def _sym_conds(cond, x, l):
+    if cond[0] == "join":
+        return [l.src == x, l.w > cond[1]]
+    if cond[0] == "lw":
+        return [l.w > cond[1]]
+    return [getattr(x, cond[0]) > cond[1]]
+
+
+def _build_join_branch(node, x, l, out, bound, sibling, alt_first, with_alt=True):
+    from entity_query_language import Add
+    from entity_query_language.rule import refinement, alternative
+    cond, tag, ref, alt = node
+    bound_here = bound or cond[0] == "join"
+    Add(out, Out(tag=tag, src=x, link=l) if bound_here else Out(tag=tag, src=x))
+
+    def declare_refinement():
+        if ref is not None:
+            with refinement(*_sym_conds(ref[0], x, l)):
+                _build_join_branch(ref, x, l, out, bound_here, sibling, alt_first)
+
+    def declare_alternatives():
+        a = alt
+        if not with_alt or a is None:
+            return
+        if not sibling:
+            with alternative(*_sym_conds(a[0], x, l)):
+                _build_join_branch(a, x, l, out, bound, sibling, alt_first)
+            return
+        while a is not None:
+            with alternative(*_sym_conds(a[0], x, l)):
+                _build_join_branch(a, x, l, out, bound, sibling, alt_first, with_alt=False)
+            a = a[3]
+
+    if alt_first:
+        declare_alternatives()
+        declare_refinement()
+    else:
+        declare_refinement()
+        declare_alternatives()
+
+
 def _build_branch(node, x, out, sibling=False, with_alt=True, alt_first=False):
     """sibling=False: every alternative is declared inside the `with` block of the branch before it (nested style);
     sibling=True : the alternatives of a chain are declared one after the other at the same level (the style of the
@@ -217,34 +345,46 @@ def _build_branch(node, x, out, sibling=False, with_alt=True, alt_first=False):
         declare_alternatives()
 
 
-def build(case, objs):
+def build(case, objs, links=None):
     from entity_query_language import symbolic_mode, let, entity, infer
     from entity_query_language.symbolic import rule_mode
     tree = case["tree"]
     with symbolic_mode():
         x = let(N, objs)
         out = let(Out)
+        l = let(L, links) if case.get("join") else None
         q = infer(entity(out, getattr(x, tree[0][0]) > tree[0][1]))
     with rule_mode(q):
-        _build_branch(tree, x, out, sibling=bool(case.get("sibling")), alt_first=bool(case.get("alt_first")))
+        if case.get("join"):
+            _build_join_branch(tree, x, l, out, False, bool(case.get("sibling")), bool(case.get("alt_first")))
+        else:
+            _build_branch(tree, x, out, sibling=bool(case.get("sibling")), alt_first=bool(case.get("alt_first")))
     return q
 
 
-def encode(o, idx):
+def encode(o, idx, lidx=None):
     if type(o) is not Out:
         return ("NOT_AN_OUT:" + type(o).__name__, -1)
+    if lidx is not None:
+        return (o.tag, idx.get(id(o.src), -1), lidx.get(id(o.link)) if o.link is not None else None)
     return (o.tag, idx.get(id(o.src), -1))
 
 
-def run(case, objs, caching, times=1):
+def run(case, objs, caching, times=1, links=None):
     from entity_query_language.cache_data import enable_caching, disable_caching
     (enable_caching if caching else disable_caching)()
     try:
-        q = build(case, objs)
+        links = links if links is not None else _links(case, objs)
+        q = build(case, objs, links)
         idx = {id(o): i for i, o in enumerate(objs)}
-        return [[encode(o, idx) for o in q.evaluate()] for _ in range(times)]
+        lidx = {id(k): i for i, k in enumerate(links)} if case.get("join") else None
+        return [[encode(o, idx, lidx) for o in q.evaluate()] for _ in range(times)]
     finally:
         enable_caching()
+
+
+def _links(case, objs):
+    return [L(src=objs[i], w=w) for i, w in case.get("links", [])] if case.get("join") else None
 
 
 def _objs(case):
@@ -274,7 +414,13 @@ def _shape_tags(node, under=None, acc=None):
 
 def check_case(case, ctx):
     objs = _objs(case)
-    exp = expected(case, objs)
+    links = _links(case, objs)
+    exp = expected(case, objs, links)
+    if case.get("join"):
+        ctx.cls("cls:join_in_tree")
+        per_item = Counter(i for i, _ in case["links"])
+        if any(v >= 2 for v in per_item.values()):
+            ctx.cls("cls:join_item_with_two_links")
     for t in _shape_tags(case["tree"]):
         ctx.cls("cls:shape:" + t)
     ctx.cls(f"cls:branches={count_nodes(case['tree'])}")
@@ -283,9 +429,13 @@ def check_case(case, ctx):
     if case.get("alt_first") and _has_ref_and_alt(case["tree"]):
         ctx.cls("cls:alternative_declared_before_refinement")
     ctx.cls("cls:caching_on" if case["caching"] else "cls:caching_off")
-    tags = {t for t, _ in exp}
-    overridden = any(holds(case["tree"][0], o) and fire(case["tree"], o) != case["tree"][1] for o in objs)
-    alt_fired = any(not holds(case["tree"][0], o) and fire(case["tree"], o) is not None for o in objs)
+    tags = {r[0] for r in exp}
+    if case.get("join"):
+        overridden = any(r[0] != case["tree"][1] for r in exp)
+        alt_fired = False
+    else:
+        overridden = any(holds(case["tree"][0], o) and fire(case["tree"], o) != case["tree"][1] for o in objs)
+        alt_fired = any(not holds(case["tree"][0], o) and fire(case["tree"], o) is not None for o in objs)
     if overridden:
         ctx.cls("cls:overridden")
     if alt_fired:
@@ -293,7 +443,8 @@ def check_case(case, ctx):
     if len(tags) >= 2 and (len(exp) < len(objs) or overridden):
         ctx.nontrivial()
     try:
-        got = run(case, objs, case["caching"])[0]
+        got = run(case, objs, case["caching"], times=2, links=links)
+        got, got_again = got[0], got[1]
     except Exception as e:
         import traceback
         ctx.fail("EXC", f"{type(e).__name__}: {e}\n{traceback.format_exc()[-800:]}")
@@ -303,7 +454,11 @@ def check_case(case, ctx):
         extra = list((Counter(got) - Counter(exp)).elements())
         ctx.fail("CONCLUSIONS:" + ("missing" if miss else "") + ("+extra" if extra else ""),
                  {"missing": miss[:8], "extra": extra[:8], "n_expected": len(exp), "n_observed": len(got)})
-    ctx.sample({"tree": case["tree"], "data": case["data"], "expected": exp[:6], "observed": got[:6]})
+    elif Counter(got_again) != Counter(exp):
+        ctx.fail("CONCLUSIONS:second_evaluation", {"n_expected": len(exp), "n_observed": len(got_again),
+                                                   "missing": list((Counter(exp) - Counter(got_again)).elements())[:8],
+                                                   "extra": list((Counter(got_again) - Counter(exp)).elements())[:8]})
+    ctx.sample({"tree": case["tree"], "data": case["data"], "links": case.get("links"), "expected": exp[:6], "observed": got[:6]})
 
 
 def classify(f, ctx):
